@@ -242,7 +242,9 @@ class ifdim(IfCommand):
         self.parse(tex)
         attrs = self.attributes
         relation = attrs['rel']
-        a, b = attrs['a'], attrs['b']
+        # TeX compares whole scaled points: without the rounding 10mm and
+        # 1cm differ by float noise
+        a, b = round(attrs['a']), round(attrs['b'])
         if relation == '<':
             tex.processIfContent(a < b)
             return []
